@@ -85,17 +85,21 @@ theorem runRules_preserves {P : St → Prop} (hP : Stable P) :
   | _, _ :: _, [], s, h => by simp [runRules]; exact h
   | i, r :: rs, f :: fl, s, h => by
     unfold runRules
-    simp only
     have h0 := logVisit_preserves hP.visit s i r.pat f h
     split
-    · exact runRules_preserves hP (i + 1) rs fl _ h0
     · split
-      · exact runRules_preserves hP (i + 1) rs fl _ (hP.ev _ _ rfl h0)
-      · rename_i ops _
-        have h1 := execOps_preserves hP.toStableOps ops _ h0
-        rcases ho : execOps ops (s.logVisit i r.pat f) with ⟨sig, s1⟩
-        rw [ho] at h1
-        cases sig <;> simp <;> first | exact runRules_preserves hP (i + 1) rs fl s1 h1 | exact h1
+      · exact h
+      · exact h0
+    · simp only
+      split
+      · exact runRules_preserves hP (i + 1) rs fl _ h0
+      · split
+        · exact runRules_preserves hP (i + 1) rs fl _ (hP.ev _ _ rfl h0)
+        · rename_i ops _
+          have h1 := execOps_preserves hP.toStableOps ops _ h0
+          rcases ho : execOps ops (s.logVisit i r.pat f) with ⟨sig, s1⟩
+          rw [ho] at h1
+          cases sig <;> simp <;> first | exact runRules_preserves hP (i + 1) rs fl s1 h1 | exact h1
 
 theorem mainLoop_preserves {P : St → Prop} (hP : Stable P) :
     ∀ (fuel : Nat) (rules : List Rule) (fl : List Bool) (s : St), P s → P (mainLoop fuel rules fl s).2
